@@ -161,6 +161,14 @@ fn soup_line(rng: &mut Rng, vocab: &[String]) -> String {
 }
 
 /// Targeted templates: primitives applied to boundary arguments.
+/// File names as they are written after \\input and \\openin: plain, missing, with file areas
+/// (`:` and `>` end an area in TeX), with dots before, after and between the area delimiters,
+/// empty, only delimiters, non-ASCII.
+const FILE_NAMES: [&str; 24] = [
+    "fa", "nosuch", "a:b", "a>b", ".", "", "fa.tex.tex", "\u{e9}", "v1.2:notes", "../dir:file", "old.d>main", "a.b:c.d", ":", ">",
+    ".:", "a.>", "a:.b", "x.y.z", "a>b.c:d", "..", "a:", ">b", "fa.", "\u{1d538}.\u{e9}:\u{3bb}",
+];
+
 fn template_line(rng: &mut Rng, vocab: &[String]) -> String {
     let num = |rng: &mut Rng| {
         if rng.chance(1, 6) {
@@ -177,8 +185,9 @@ fn template_line(rng: &mut Rng, vocab: &[String]) -> String {
         }
     };
     let cs = |rng: &mut Rng| vocab[rng.below(vocab.len())].clone();
-    match rng.below(44) {
+    match rng.below(47) {
         41..=43 => wide_layout(rng),
+        44..=46 => line_start(rng, vocab),
         0 => format!("\\count{}={} ", num(rng), num(rng)),
         1 => format!("\\catcode{}={} ", num(rng), num(rng)),
         2 => format!("\\dimen{}={} ", num(rng), dim(rng)),
@@ -190,7 +199,11 @@ fn template_line(rng: &mut Rng, vocab: &[String]) -> String {
         8 => format!("\\mathchardef\\xa={} \\the\\xa ", num(rng)),
         9 => format!("\\countdef\\xa={} \\xa={} ", num(rng), num(rng)),
         10 => format!("\\toksdef\\xa={} \\xa={{a}} ", num(rng)),
-        11 => format!("\\openin{}=fa \\read{} to\\xa \\closein{} ", num(rng), num(rng), num(rng)),
+        11 => {
+            let k = if rng.chance(1, 2) { 1 } else { FILE_NAMES.len() };
+            let name = FILE_NAMES[rng.below(k)];
+            format!("\\openin{}={name} \\read{} to\\xa \\closein{} ", num(rng), num(rng), num(rng))
+        }
         12 => format!("\\ifnum{}<{} a\\else b\\fi ", num(rng), num(rng)),
         13 => format!("\\ifcase{} a\\or b\\else c\\fi ", num(rng)),
         14 => format!("\\ifodd{} a\\fi \\ifeof{} b\\fi ", num(rng), num(rng)),
@@ -199,7 +212,7 @@ fn template_line(rng: &mut Rng, vocab: &[String]) -> String {
         17 => format!("\\def{}#1#{}{{#1}} ", cs(rng), rng.below(10)),
         18 => format!("\\global{} ", cs(rng)),
         19 => format!("\\expandafter{}{} ", cs(rng), cs(rng)),
-        20 => format!("\\input {} ", ["fa", "nosuch", "a:b", "a>b", ".", "", "fa.tex.tex", "é"][rng.below(8)]),
+        20 => format!("\\input {} ", FILE_NAMES[rng.below(FILE_NAMES.len())]),
         21 => format!("\\mathcode{}={} \\the\\mathcode{} ", num(rng), num(rng), num(rng)),
         22 => format!("\\dimen0={} \\multiply\\dimen0 by {} \\the\\dimen0 ", dim(rng), num(rng)),
         23 => format!("é\\count{}=x ", num(rng)),
@@ -279,6 +292,25 @@ fn template_line(rng: &mut Rng, vocab: &[String]) -> String {
             .to_string()
         }
     }
+}
+
+/// What a source can *start* with: interpreter lines (`#!`), a byte-order mark, comment and escape
+/// characters, `^^` notation, braces, blanks, control characters, nothing at all - followed by
+/// nothing, by a line end, or by ordinary material. The text is a whole source (a REPL line, an
+/// \\input file or a \\read file), with or without a final line end.
+fn line_start(rng: &mut Rng, vocab: &[String]) -> String {
+    let starts = [
+        "#!", "#!/usr/bin/env -S texcraft run", "#", "#1", "##", "!", "%", "%!", "\u{feff}", "\u{feff}#!", "\\", "^^", "^^M", "{", "}", "~",
+        " ", "\t", "\r", "\0", "\u{7f}", "", "\u{e9}", "\u{2028}", "$", "&", "_", "^", "`", "\"", "'", "-", "=",
+    ];
+    let rests = ["", "", "\n", "\r\n", " ", "x", "\\count1=1 ", "\\undefinedcs", "\n\\count1=x", "}", "{", "\\par"];
+    let mut s = String::new();
+    s.push_str(starts[rng.below(starts.len())]);
+    s.push_str(rests[rng.below(rests.len())]);
+    if rng.chance(1, 4) {
+        s.push_str(&vocab[rng.below(vocab.len())]);
+    }
+    s
 }
 
 /// Errors whose geometry is extreme: a token that is 1 .. 1000 characters wide (an undefined or a
@@ -373,7 +405,7 @@ fn lexer_stress(rng: &mut Rng) -> Vec<String> {
         lines.push(pre);
     }
     let atoms = [
-        "a", "Z", "0", " ", "  ", "\t", "\\", "{", "}", "%", "^^", "^^M", "^^?", "^^@", "^^a", "^^5c", "^^7b", "^", "~", "#", "$", "&", "_",
+        "a", "Z", "0", " ", "  ", "\t", "\\", "{", "}", "%", "^^", "^^M", "^^?", "^^@", "^^a", "^^5c", "^^7b", "^", "~", "#", "$", "&", "_", "!", "#!", "\u{feff}",
         "é", "€", "\u{1D518}", "\u{7f}", "\u{0}", "\\relax", "\\count", "\\def", "\\the", "\\undefinedcs", "\\é", "\\ ", "\\^^M", "\\^^", "1", "=", "-", "`",
     ];
     let nl = ["\n", "\n", "\r\n", " \n", "   \n", "\n\n", "%\n", "\r"];
